@@ -410,6 +410,66 @@ func propC19URL(t *rapid.T) {
 	statCase("C19", disq == 1, fmt.Sprintf("url|%s|u%v h%s p%v q%v f%v|%s", scheme, user != "", host, port != "", query != "", frag != "", name), "file URL", fmt.Sprintf("disqualifying components=%d", disq))
 }
 
+// propC19Relative: relative plain paths and relative file references must open
+// exactly the path as written (only the bare names stdout/stderr are special).
+func propC19Relative(t *rapid.T) {
+	c19Mu.Lock()
+	defer c19Mu.Unlock()
+	dir := c19Dir(t)
+	defer os.RemoveAll(dir)
+	cwd, err := os.Getwd()
+	if err != nil {
+		t.Fatalf("VERIF-INCONCLUSIVE getwd: %v", err)
+	}
+	if err := os.Chdir(dir); err != nil {
+		t.Fatalf("VERIF-INCONCLUSIVE chdir: %v", err)
+	}
+	defer os.Chdir(cwd)
+	os.MkdirAll(filepath.Join(dir, "sub", "deep"), 0o755)
+	// capture the real standard streams in scratch files
+	so, se := os.Stdout, os.Stderr
+	fo, _ := os.Create(filepath.Join(dir, ".captured-stdout"))
+	fe, _ := os.Create(filepath.Join(dir, ".captured-stderr"))
+	os.Stdout, os.Stderr = fo, fe
+	defer func() { os.Stdout, os.Stderr = so, se; fo.Close(); fe.Close() }()
+	rel := rapid.SampledFrom([]string{"stdout", "stderr", "./stdout", "./stderr", "sub/../stdout", "sub/../stderr", "sub/stdout", "a.log", "./a.log", "sub/./b.log",
+		"sub/deep/../c.log", "sub//d.log", "stdout.log", "x/../stderr", "sub/deep/../../stdout"}).Draw(t, "relativePath")
+	special := rel == "stdout" || rel == "stderr"
+	ws, closeFn, oerr := zap.Open(rel)
+	target := filepath.Join(dir, rel) // what the operating system resolves the relative path to
+	if strings.HasPrefix(rel, "x/") {
+		// the directory x does not exist: the OS rejects x/../stderr
+		if oerr == nil {
+			closeFn()
+			t.Fatalf("Open(%q) succeeded although the directory does not exist (the path must be opened as written)", rel)
+		}
+		statCase("C19", true, "rel|"+rel, "relative path")
+		return
+	}
+	if oerr != nil {
+		t.Fatalf("Open(%q): %v", rel, oerr)
+	}
+	ws.Write([]byte("relative\n"))
+	ws.Sync()
+	closeFn()
+	capOut, _ := os.ReadFile(filepath.Join(dir, ".captured-stdout"))
+	capErr, _ := os.ReadFile(filepath.Join(dir, ".captured-stderr"))
+	if special {
+		want := map[string][]byte{"stdout": capOut, "stderr": capErr}[rel]
+		if string(want) != "relative\n" {
+			t.Fatalf("Open(%q) did not write to the standard stream", rel)
+		}
+	} else {
+		if len(capOut) != 0 || len(capErr) != 0 {
+			t.Fatalf("Open(%q) wrote to a standard stream instead of the file %q", rel, target)
+		}
+		if b, err := os.ReadFile(target); err != nil || string(b) != "relative\n" {
+			t.Fatalf("Open(%q): the file %q holds %q (%v): exactly the given path must be opened", rel, target, b, err)
+		}
+	}
+	statCase("C19", !special, "rel|"+rel, "relative path")
+}
+
 // propC19Paths: plain relative / absolute paths and raw strings: invariants only.
 func propC19Raw(t *rapid.T) {
 	c19Mu.Lock()
@@ -629,6 +689,7 @@ func propC19Registry(t *rapid.T) {
 func TestC19Open(t *testing.T)     { rapid.Check(t, propC19Open) }
 func TestC19URL(t *testing.T)      { rapid.Check(t, propC19URL) }
 func TestC19Raw(t *testing.T)      { rapid.Check(t, propC19Raw) }
+func TestC19Relative(t *testing.T) { rapid.Check(t, propC19Relative) }
 func TestC19StdLog(t *testing.T)   { rapid.Check(t, propC19StdLog) }
 func TestC19Registry(t *testing.T) { rapid.Check(t, propC19Registry) }
 
